@@ -21,3 +21,21 @@ func VerifPrintUnquotedUTF16(text []uint16, quote rune, asciiOnly bool, unsuppor
 	p.printUnquotedUTF16(text, quote, flags)
 	return p.js[currentLineLength:]
 }
+
+// VerifPrintNonNegativeFloat runs the real printNonNegativeFloat on a fresh printer and returns the bytes it
+// printed, followed by whether needSpaceBeforeDot was set to the end of the output.
+func VerifPrintNonNegativeFloat(absValue float64, minifyWhitespace bool) (string, bool) {
+	p := &printer{options: Options{MinifyWhitespace: minifyWhitespace}}
+	p.needSpaceBeforeDot = -1
+	p.printNonNegativeFloat(absValue)
+	return string(p.js), p.needSpaceBeforeDot == len(p.js)
+}
+
+// VerifSmallIntToBytes runs the real smallIntToBytes (the result aliases a buffer of the printer, so it is copied).
+func VerifSmallIntToBytes(n int) string {
+	p := &printer{}
+	return string(p.smallIntToBytes(n))
+}
+
+// VerifParseSmallInt runs the real parseSmallInt.
+func VerifParseSmallInt(bytes []byte) int { return parseSmallInt(bytes) }
